@@ -130,7 +130,11 @@ func (a *updatableAEAD) startKeyDropTimer(now monotime.Time) {
 }
 
 func (a *updatableAEAD) getNextTrafficSecret(hash crypto.Hash, ts []byte) []byte {
-	return hkdfExpandLabel(hash, ts, []byte{}, "quic ku", hash.Size())
+	label := "quic ku"
+	if a.version == protocol.Version2 {
+		label = "quicv2 ku" // RFC 9369, section 3.3.2
+	}
+	return hkdfExpandLabel(hash, ts, []byte{}, label, hash.Size())
 }
 
 // SetReadKey sets the read key.
